@@ -54,13 +54,13 @@ type WriteSite struct {
 	Fn     *ssa.Function
 	Instr  ssa.Instruction
 	Pos    token.Pos
-	Kind   string        // "field", "struct", "global", "index", "map", "deref"
-	Field  *types.Var    // for Kind field (innermost field written) or index/map through a field
-	Owner  *types.Named  // struct type owning Field, or struct type overwritten (Kind struct)
-	Global *ssa.Global   // root global if the address chain starts at a package-level variable
-	Chain  []AddrStep    // address derivation chain, innermost first
-	Root   ssa.Value     // value at which the chain ends (Alloc, Parameter, call result, ...)
-	Val    ssa.Value     // stored value (nil for map delete etc.)
+	Kind   string       // "field", "struct", "global", "index", "map", "deref"
+	Field  *types.Var   // for Kind field (innermost field written) or index/map through a field
+	Owner  *types.Named // struct type owning Field, or struct type overwritten (Kind struct)
+	Global *ssa.Global  // root global if the address chain starts at a package-level variable
+	Chain  []AddrStep   // address derivation chain, innermost first
+	Root   ssa.Value    // value at which the chain ends (Alloc, Parameter, call result, ...)
+	Val    ssa.Value    // stored value (nil for map delete etc.)
 }
 
 // AddrStep is one step of an address derivation.
